@@ -120,6 +120,15 @@ func VerifScenarios() []VScenario {
 		b.line(c, "PING x")
 		b.lines(a, "JOIN #c", "MODE #c +b b!*@*", fmt.Sprintf("MODE #c +b *!*@robust/0x%x", c))
 	})
+	mk("banned-address", func(b *vbuilder) { // as above; d is not banned itself, but may come from the address of c (10.0.0.8)
+		b.config(vCfgBase)
+		a := b.user("a")
+		b.user("b")
+		c := b.user("c")
+		b.line(c, "PING x")
+		b.user("d")
+		b.lines(a, "JOIN #c", fmt.Sprintf("MODE #c +b *!*@robust/0x%x", c))
+	})
 	mk("captcha", func(b *vbuilder) { // #c +x +k; b banned too
 		b.config(vCfgBase)
 		a := b.user("a")
